@@ -30,14 +30,22 @@ def cases(rng, tier):
         r = rng.random()
         fk = None
         if r < 0.4:
-            fk = {'n_cycles': rng.choice([2, 3, 4])}
-        elif r < 0.6:
-            fk = {'n_seconds': round(rng.choice([2.5, 3, 4]) * s['period'] / s['fs'] / 0.7, 6)}
+            fk = {'n_cycles': rng.choice([1, 2, 3, 4])}
+        elif r < 0.7:
+            # including filters much SHORTER than one period of the band (they do not ring into the padding)
+            fk = {'n_seconds': round(rng.choice([0.3, 0.45, 0.6, 0.9, 2.5, 3, 4]) * s['period'] / s['fs'] / 0.7, 6)}
         out.append({'kind': 'signal/' + s['kind'], 'sig': gen.hexlist(s['sig']), 'fs': s['fs'], 'f_range': list(s['f_range']),
                     'boundary': rng.choice([0, 0, 1, 5, n // 10]),
                     'first': rng.choice(['peak', 'peak', 'trough', 'trough', None, None, 'bogus'] if rng.random() < 0.15
                                         else ['peak', 'trough', None]),
                     'filter_kwargs': fk, 'pad': rng.random() < 0.8, 'negate': rng.random() < 0.3})
+    # filters shorter than one band period, padded: the outermost half-waves are closed only by the padding zeros
+    for _ in range(60 if tier == 'quick' else 600):
+        s = gen.signal(rng, kind=rng.choice(['sine', 'asym', 'quant', 'dc', 'sum']), max_len=400)
+        out.append({'kind': 'shortfilter/' + s['kind'], 'sig': gen.hexlist(s['sig']), 'fs': s['fs'], 'f_range': list(s['f_range']),
+                    'boundary': rng.choice([0, 0, 1]), 'first': rng.choice(['peak', 'trough', None]),
+                    'filter_kwargs': {'n_seconds': round(rng.choice([0.3, 0.4, 0.5, 0.6]) * s['period'] / s['fs'] / 0.7, 6)},
+                    'pad': True, 'negate': rng.random() < 0.5})
     L = 8 if tier == 'quick' else 10
     per = 6 if tier == 'quick' else 10
     for ln in range(2, L + 1):
